@@ -10,7 +10,9 @@ check.  Node ids are structured (`NodeId`) so that proofs can tell the kinds of 
 the Go string (`steps.S.G`, `steps.S.G.O`, `outputs.X`, `<parent>.<path joined by '.'>`, `<group>.<option>`), and a
 collision of rendered ids is detected where Go detects it (`AddNode` on an existing id).
 
-A Go panic is an explicit `Reject.panicRootRef` (expression `$`: `dependency[1]` is out of range), never a default.
+No modelled path of `Prepare` panics: an expression that is only `$` (a dependency path of length 1) is rejected by the
+guard `len(dependency) < 2` of `prepareExprDependencies` (`Reject.rootRef`; before /repo commit 1ef90ac that was an
+index-out-of-range panic, found by this slice).  `Reject` therefore has no panic constructor (`prepare_never_panics`).
 
 Outside this model (validated by the differential only as "the model accepts ⇒ the code may still reject with class
 type/schema"): type compatibility of stage inputs with the step schema, fields *inside* typed outputs, the provider
@@ -75,7 +77,7 @@ def NodeId.render : NodeId → String
 inductive Reject where
   | dangling          -- reference to a non-existing input field / step / stage (with outputs) / output
   | invalidDep        -- `$.steps` / `$.steps.S`: "invalid dependency"
-  | panicRootRef      -- `$`: Go panics (index out of range in prepareExprDependencies)
+  | rootRef           -- `$` alone: "invalid dependency $ ...: it must refer to the workflow input or to a step"
   | badOrDisabled     -- `!ordisabled` on something that is not `$.steps.S.<more>` (rejected by the YAML layer)
   | emptyOneOf
   | noSteps
@@ -87,7 +89,7 @@ inductive Reject where
 def Reject.cls : Reject → String
   | .dangling => "dangling"
   | .invalidDep => "dangling"
-  | .panicRootRef => "panic"
+  | .rootRef => "dangling"
   | .badOrDisabled => "yaml"
   | .emptyOneOf => "other"
   | .noSteps => "other"
@@ -156,7 +158,7 @@ def findRow (k : StepKind) (g : String) : Option StageRow := (rowsOf k).find? (f
 
 /-- the node an expression dependency `$.<p>` is connected from -/
 def Wf.resolve (po : List String) (wf : Wf) : List String → Except Reject NodeId
-  | [] => .error .panicRootRef
+  | [] => .error .rootRef
   | k :: rest =>
     if k = "input" then
       match rest with
